@@ -152,6 +152,18 @@ func genName(r *Rand, formats []string, maxLen int) string {
 		}
 		b := make([]byte, n)
 		switch {
+		case r.Chance(0.02) && maxLen >= 8:
+			// a name that begins with, or ends in, a word one of the formats gives a meaning to (not the word itself)
+			w := []string{"clustal", "Clustal", "CLUSTAL", "begin", "END", "matrix", "data", "taxa", "ntax", "gap", "stockholm"}[r.Intn(11)]
+			sfx := []string{"2", "O_ref", "_x", "W1", "s", "A"}[r.Intn(6)]
+			nm := w + sfx
+			if r.Chance(0.3) {
+				nm = "x_" + w
+			}
+			if len(nm) > maxLen {
+				nm = nm[:maxLen]
+			}
+			b = []byte(nm)
 		case r.Chance(0.12): // all digits
 			for i := range b {
 				b[i] = "0123456789"[r.Intn(10)]
